@@ -31,14 +31,19 @@ theorem em_queue_is_unbounded : ∀ r ∈ emQueueBound, r.2 = 0 := by decide
     with / without a keyboard interrupt (delivered before or after the failure); what the caller saw (returned
     verdict, or the class of the raised error and whether it carries the backend's text) equals
     `RunOutcome.outcome` of the facts of that run, the pending failure being what `RunOutcome.pendingAfter` makes of the
-    CLASS of what the handler raised (user-defined Exception, StopIteration, StopAsyncIteration: recorded; GeneratorExit,
-    SystemExit, KeyboardInterrupt: not caught by `except Exception` — finding D42).
+    CLASS of what the handler raised (user-defined Exception, StopIteration, StopAsyncIteration, GeneratorExit, SystemExit,
+    KeyboardInterrupt: all recorded since fix D42), and the class of the error the caller gets (the failure's own class
+    or the framework's `LemoncheesecakeException`) equals `RunOutcome.reraisedAsFrameworkError`.
     Row: ((interrupted, backend failed, report successful, class name), outcome). -/
 def evalOutcome (r : Bool × Bool × Bool × String) : String :=
   let (interrupted, failed, successful, cls) := r
-  (RunOutcome.outcome { interrupted := interrupted, taskException := false,
-                        pending := if failed then RunOutcome.pendingAfter (RunOutcome.FaultClass.ofName cls) "T" else none,
-                        successful := successful }).name
+  let c := RunOutcome.FaultClass.ofName cls
+  let o := RunOutcome.outcome { interrupted := interrupted, taskException := false,
+                                pending := if failed then RunOutcome.pendingAfter c "T" else none,
+                                successful := successful }
+  match o with
+  | .raisedBackendError _ => o.name ++ (if RunOutcome.reraisedAsFrameworkError c then ":framework" else ":own")
+  | _ => o.name
 
 theorem run_outcome_table_agrees : ∀ r ∈ runOutcomeTable, evalOutcome r.1 = r.2 := by decide
 
